@@ -14,9 +14,6 @@ func init() {
 	models["sort.Slice"] = sortSliceModel(false)
 	models["sort.SliceStable"] = sortSliceModel(true)
 	models["sort.Search"] = sortSearchModel
-	models["container/heap.Init"] = heapInitModel
-	models["container/heap.Pop"] = heapPopModel
-	models["container/heap.Push"] = heapPushModel
 	effects["sort.Slice"] = sortEffects
 	effects["sort.SliceStable"] = sortEffects
 	effects["container/heap.Init"] = heapEffects
@@ -36,6 +33,11 @@ func sortEffects(x *Exec, ms *modSet, cc *ssa.CallCommon, visiting map[*ssa.Func
 }
 
 func heapEffects(x *Exec, ms *modSet, cc *ssa.CallCommon, visiting map[*ssa.Function]bool) {
+	ms.arrays["HS"] = "(Array Int Int)"
+	ms.arrays["HOK"] = "(Array Int Bool)"
+	for n, s := range x.hmArrays {
+		ms.arrays[n] = s
+	}
 	// the user's Push/Pop/Swap methods of every heap implementation in the loaded packages
 	for fn := range x.allFuncs() {
 		if fn.Signature.Recv() == nil || fn.Blocks == nil {
@@ -165,118 +167,6 @@ func sortSearchModel(x *Exec, st *State, fr *Frame, in ssa.Instruction, fn *ssa.
 	x.assume(st, "(forall (("+i+" Int)) (=> (and (<= 0 "+i+") (< "+i+" "+p+")) "+not(f(i))+"))")
 	x.assume(st, implies(app("<", p, n), f(p)))
 	k(st, Term{p, intT})
-}
-
-// ---------- container/heap ----------
-
-type heapView struct {
-	recv  *Iface
-	slice Term // the slice holding the elements
-	et    types.Type
-}
-
-// heapViewOf finds the element slice of a heap implementation through its `heapview` contract
-// declaration (an expression over `self`).
-func (x *Exec) heapViewOf(st *State, fr *Frame, h Val) heapView {
-	ifc, ok := h.(*Iface)
-	if !ok {
-		bail("container/heap: receiver of unknown dynamic type")
-	}
-	key := types.TypeString(ifc.Dyn, func(*types.Package) string { return "" })
-	hv, ok := x.heapViews[key]
-	if !ok {
-		bail("container/heap: no `heapview (%s) = ...` declaration in the contract file", key)
-	}
-	env := x.newEnv(st, nil, fr)
-	env.fn = hv.pkg.Func("init")
-	env.vars["self"] = ifc.V
-	if t, ok := ifc.V.(Term); ok {
-		env.vars["self"] = Term{t.S, ifc.Dyn}
-	}
-	v := env.eval(hv.e)
-	t, ok := v.(Term)
-	if !ok {
-		bail("heapview must evaluate to a slice")
-	}
-	sl, ok := t.T.Underlying().(*types.Slice)
-	if !ok {
-		bail("heapview must evaluate to a slice, got %s", t.T)
-	}
-	return heapView{recv: ifc, slice: t, et: sl.Elem()}
-}
-
-func (x *Exec) heapLess(st *State, fr *Frame, ifc *Iface) func(i, j string) string {
-	lessFn := x.methodOf(ifc.Dyn, "Less")
-	intT := types.Typ[types.Int]
-	return func(i, j string) string {
-		recv := ifc.V
-		// value receiver methods reached through a pointer: ssa provides a wrapper taking the pointer
-		return x.pureCall(st, fr, lessFn, nil, []Val{recv, Term{i, intT}, Term{j, intT}}).S
-	}
-}
-
-func (x *Exec) heapOK(st *State) string {
-	return x.getArr(st, "HOK", "(Array Int Bool)")
-}
-
-func refOf(x *Exec, v Val) string {
-	switch t := v.(type) {
-	case Term:
-		return t.S
-	case *Place:
-		if s, ok := x.placeTerm(t); ok {
-			return s
-		}
-	}
-	bail("container/heap: receiver is not a heap object")
-	return ""
-}
-
-func heapInitModel(x *Exec, st *State, fr *Frame, in ssa.Instruction, fn *ssa.Function, args []Val, k callCont) {
-	x.used("container/heap.Init/Push/Pop (elements are permuted; Pop removes and returns a least element of a heap-ordered collection; requires Less to be a strict weak order)")
-	hv := x.heapViewOf(st, fr, args[0])
-	s := hv.slice.S
-	n := x.define(st, "n", "Int", app("s_len", s))
-	x.strictWeakOrder(st, fr, in, n, x.heapLess(st, fr, hv.recv), "heap Less")
-	x.frameCheck(st, fr, app("s_arr", s), in)
-	x.permute(st, hv.et, x.define(st, "arr", "Int", app("s_arr", s)), x.define(st, "off", "Int", app("s_off", s)), n)
-	x.setArr(st, "HOK", "(Array Int Bool)", app("store", x.heapOK(st), refOf(x, hv.recv.V), "true"))
-	k(st, nil)
-}
-
-func heapPopModel(x *Exec, st *State, fr *Frame, in ssa.Instruction, fn *ssa.Function, args []Val, k callCont) {
-	hv := x.heapViewOf(st, fr, args[0])
-	s := hv.slice.S
-	n := x.define(st, "n", "Int", app("s_len", s))
-	x.safety(st, fr, "heap-pop-empty", in, 0, app(">=", n, "1"), "heap.Pop on a non-empty heap")
-	x.strictWeakOrder(st, fr, in, n, x.heapLess(st, fr, hv.recv), "heap Less")
-	x.frameCheck(st, fr, app("s_arr", s), in)
-	ok := app("select", x.heapOK(st), refOf(x, hv.recv.V))
-	x.permute(st, hv.et, x.define(st, "arr", "Int", app("s_arr", s)), x.define(st, "off", "Int", app("s_off", s)), n)
-	// after the permutation the least element sits last (that is what the user's Pop removes)
-	less := x.heapLess(st, fr, hv.recv)
-	j := x.fresh("j")
-	last := app("-", n, "1")
-	x.assume(st, implies(ok, "(forall (("+j+" Int)) (=> (and (<= 0 "+j+") (< "+j+" "+n+")) "+not(less(j, last))+"))"))
-	popFn := x.methodOf(hv.recv.Dyn, "Pop")
-	x.callStatic(st, fr, in, popFn, nil, []Val{hv.recv.V}, k)
-}
-
-func heapPushModel(x *Exec, st *State, fr *Frame, in ssa.Instruction, fn *ssa.Function, args []Val, k callCont) {
-	ifc, ok := args[0].(*Iface)
-	if !ok {
-		bail("container/heap.Push: receiver of unknown dynamic type")
-	}
-	pushFn := x.methodOf(ifc.Dyn, "Push")
-	x.callStatic(st, fr, in, pushFn, nil, []Val{ifc.V, args[1]}, func(st2 *State, _ Val) {
-		hv := x.heapViewOf(st2, fr, args[0])
-		s := hv.slice.S
-		n := x.define(st2, "n", "Int", app("s_len", s))
-		x.strictWeakOrder(st2, fr, in, n, x.heapLess(st2, fr, hv.recv), "heap Less")
-		x.frameCheck(st2, fr, app("s_arr", s), in)
-		x.permute(st2, hv.et, x.define(st2, "arr", "Int", app("s_arr", s)), x.define(st2, "off", "Int", app("s_off", s)), n)
-		k(st2, nil)
-	})
 }
 
 var _ = fmt.Sprint
